@@ -246,6 +246,10 @@ class Reporter:
         self.assumptions = []
         self._n = 0
         self.replay_dir = os.path.join(VERIF, "replays", pid)
+        if os.path.isdir(self.replay_dir):
+            for f in os.listdir(self.replay_dir):
+                if f.startswith(tier + "_"):
+                    os.unlink(os.path.join(self.replay_dir, f))
 
     def violation(self, replay, no_input=False):
         os.makedirs(self.replay_dir, exist_ok=True)
